@@ -116,21 +116,30 @@ fn rejected_in2(w1: usize, w2: usize, a: WhereClause) -> bool {
     rejected(v)
 }
 
-/// Depth 0: each of the five belief spellings alone; BELIEF after, BELIEF SLOT
-/// before an ordinary pattern.
+/// Depth 0: BELIEF and BELIEF SLOT alone; BELIEF after, BELIEF SLOT before an
+/// ordinary pattern.
 #[kani::proof]
-#[kani::unwind(6)]
+#[kani::unwind(4)]
 #[kani::stub(alloc::fmt::format, stub_format)]
-fn c16_belief_depth0() {
-    let mut f = 0;
-    while f < 5 {
-        assert!(rejected1(belief(f)), "OBL:C16.belief.rejected");
-        f += 1;
-    }
+fn c16_belief_depth0_positions() {
+    assert!(rejected1(belief(0)), "OBL:C16.belief.rejected");
+    assert!(rejected1(belief(1)), "OBL:C16.belief.rejected");
     assert!(rejected2(ordinary(), belief(0)), "OBL:C16.belief.rejected");
     assert!(rejected2(belief(1), ordinary()), "OBL:C16.belief.rejected");
     // not everything is rejected: an ordinary exact block is accepted
     kani::cover!(!rejected1(ordinary()), "COVER:ordinary_accepted");
+    kani::cover!(true, "COVER:reach");
+}
+
+/// Depth 0: the other three spellings (BELIEF by id, BELIEF of an inline tuple,
+/// BELIEF SLOT over parameters) alone (thorough tier).
+#[kani::proof]
+#[kani::unwind(4)]
+#[kani::stub(alloc::fmt::format, stub_format)]
+fn c16_belief_depth0_spellings() {
+    assert!(rejected1(belief(2)), "OBL:C16.belief.rejected");
+    assert!(rejected1(belief(3)), "OBL:C16.belief.rejected");
+    assert!(rejected1(belief(4)), "OBL:C16.belief.rejected");
     kani::cover!(true, "COVER:reach");
 }
 
